@@ -1,3 +1,4 @@
+import PT.Lemmas.Refine
 import PT.Lemmas.Map
 /-!
 # C02 — Longest-prefix match returns the most specific covering entry
@@ -56,5 +57,11 @@ theorem getLpm_shape_independent {m1 m2 : PMap w V} (h1 : m1.TreeWF) (h2 : m2.Tr
   rw [he]
 
 theorem getLpmPrefix_eq (m : PMap w V) (q : Pfx w) : m.getLpmPrefix q = (m.getLpm q).map (·.1) := rfl
+
+
+/-- `get_lpm` computes the specification's arg-max (`Spec.lpm`: fold `pickLonger` over the covering
+entries of the abstract map) -/
+theorem getLpm_eq_spec {m : PMap w V} (h : m.TreeWF) (q : Pfx w) : m.getLpm q = Spec.lpm m.entries q :=
+  PMap.getLpm_refines h q
 
 end PT.C02
